@@ -1,6 +1,7 @@
 package net
 
 import (
+	"encoding/binary"
 	"fmt"
 	"testing"
 	"testing/synctest"
@@ -40,6 +41,24 @@ func packetFor(n *netsim.Net, src, dst int, p combinator.Path, payload []byte) r
 		SrcIA: uint64(n.T.ASes[src].IA), DstIA: uint64(n.T.ASes[dst].IA), Src: hostOf(src, "src"), Dst: hostOf(dst, "dst")}
 	pk.SetUDP(40000, 50000, payload)
 	return pk
+}
+
+// epicPacketFor carries the same path as an EPIC packet (nil if the combinator supplied no authenticators). The
+// hop validation fields are computed with the clean-room EPIC MAC from the combinator's authenticators.
+func epicPacketFor(n *netsim.Net, src, dst int, p combinator.Path, payload []byte) *rtr.Pkt {
+	ea := p.Metadata.EpicAuths
+	if !ea.SupportsEpic() {
+		return nil
+	}
+	pk := packetFor(n, src, dst, p, payload)
+	pk.PathType, pk.EpicTS, pk.EpicCtr = rtr.PathEPIC, 0, 0x02000001
+	infoTS := binary.BigEndian.Uint32(pk.RawPath[8:12])
+	var a1, a2 [16]byte
+	copy(a1[:], ea.AuthPHVF)
+	copy(a2[:], ea.AuthLHVF)
+	pk.PHVF = rtr.EpicHVF(a1, infoTS, pk.EpicTS, pk.EpicCtr, pk.SrcIA, pk.Src, uint16(len(pk.Payload)))
+	pk.LHVF = rtr.EpicHVF(a2, infoTS, pk.EpicTS, pk.EpicCtr, pk.SrcIA, pk.Src, uint16(len(pk.Payload)))
+	return &pk
 }
 
 // firstBR: the border router of src owning the first interface of the path.
